@@ -916,6 +916,14 @@ class Interp:
     def _deliver(self, p, fid, fn, t, res, work):
         """res: a value | ('fork', [(value, assumption), ...]) | ('panic', what)"""
         tgt = t["target"]
+        if isinstance(res, tuple) and res and res[0] == "enter":
+            # a model asks to evaluate a local function / closure and deliver (wrap(result)) as the call's result
+            _, g, cargs, wrap = res
+            if tgt is None or len(p.stack) > self.max_depth + 2:
+                self.write_place(p, fid, t["dst"], Opaque("enter-bound"))
+                p.stack[-1][2] = tgt
+                return tgt is not None
+            return self._enter(p, g, cargs, fid, t["dst"], tgt, wrap=wrap)
         if isinstance(res, tuple) and res and res[0] == "panic":
             self.finish(p, "panic", res[1], t.get("us") or t.get("sp"))
             return False
